@@ -158,6 +158,8 @@ class Segment:
         self.cur = None
         self.bridge = None
         self.crashed = False
+        self.clock_ticks = job.get("clock_ticks", 0)
+        self.held = []            # (label, result object, canonical form when it was returned)
         self.lib_ops = 0          # library operations executed so far in this interpreter
         self.last_lib_op = None
 
@@ -193,6 +195,21 @@ class Segment:
                 return fh.read()
         except FileNotFoundError:
             return None
+
+    def stamp(self, rel):
+        """F-clock: the modification time a file gets is the simulator's, not the wall clock's.
+        'frozen' = coarse timestamp granularity / a restored backup (every file has the same
+        mtime); 'backwards' = the clock stepped back between two writes."""
+        mode = self.disk.cfg.get("mtime_mode", "real")
+        if mode == "real" or rel is None:
+            return
+        full = self.abspath(rel)
+        if not os.path.exists(full):
+            return
+        self.clock_ticks += 1
+        when = 1700000000 if mode == "frozen" else 1700000000 - 10 * self.clock_ticks
+        os.utime(full, (when, when))
+        self.probe("fault_fired.mtime_" + mode)
 
     def disk_state(self):
         """{relative path: (size, sha)} of every file on the simulated disk."""
@@ -242,6 +259,7 @@ class Segment:
             if self.job.get("frame_check", True):
                 self.frame_check(op)
         return {"obs": self.obs, "fails": self.fails, "files": self.files,
+                "clock_ticks": self.clock_ticks,
                 "probes": self.probes, "stats": self.disk.stats, "crashed": self.crashed}
 
     def frame_check(self, op):
@@ -323,6 +341,17 @@ class Segment:
         observed = self.bridge.observe(entry["obj"])
         now = rm.cj(rm.flat(observed))
         diffs = rm.compare(op["ref_after"], observed, ALL_FACETS)
+        if diffs and not (op["edit"]["k"] == "add_leaf" and
+                          all(d[0] in ("fcard", "type", "abstract", "attrs") for d in diffs)):
+            # Only a freshly constructed Feature (add_leaf) exercises the constructors' shared
+            # defaults.  Any other mismatch would be the planner's reference drifting from the
+            # model, which must never be reported as a finding about the library: the model is
+            # set aside (tainted) and the event counted.
+            self.probe("edit_mismatch_ignored")
+            entry["tainted"] = True
+            entry["flat"] = now
+            rec["outcome"] = "ok"
+            return
         if diffs:
             if self.lib_ops == 0:
                 raise RuntimeError("harness: edit %r did not produce the planned reference: %r" %
@@ -443,6 +472,7 @@ class Segment:
                           "%r was %s while serialising to %r" % (
                               other, "created" if other not in disk_before else
                               "removed" if other not in disk_after else "modified", rel), tags)
+        self.stamp(rel)
         after_bytes = None if rel is None else self.read_bytes(rel)
         hard = [k for k in fired if k in ("open_err", "write_err")]
         if op.get("nodir"):
@@ -508,7 +538,10 @@ class Segment:
                     self.fail(RT_PROP[fmt], fmt + ".cycle.text_drift", site,
                               "generation %d text differs from generation %d text" % (
                                   src["gen"] + 1, src["gen"]), tags + ["hist.gen_ge2"])
-            if rel is not None and not hard and after_bytes is not None:
+            if rel is not None and after_bytes is not None and not op.get("nodir"):
+                # transform() returned normally, i.e. claims the file now holds the model: the
+                # file table says so even if an injected error was swallowed on the way, and the
+                # next READ is held to the round-trip property
                 gen = 1
                 if src and src["fmt"] == fmt:
                     gen = src["gen"] + 1
@@ -546,6 +579,7 @@ class Segment:
             data = base64.b64decode(op["b64"])
         with simdisk.REAL_OPEN(self.abspath(rel), "wb") as fh:
             fh.write(data)
+        self.stamp(rel)
         self.files[rel] = {"fmt": op["fmt"], "state": "peer", "expect": op["expect"],
                            "prop": op.get("prop"), "tags": op.get("tags", []),
                            "sha": sha(data)}
@@ -577,8 +611,17 @@ class Segment:
             del data[start:start + sector]
         elif kind == "truncate":
             del data[pos:]
+        elif kind == "utf8_break":
+            # damage inside a multi-byte character: the file is no longer valid UTF-8
+            idx = [i for i, byte in enumerate(data) if byte >= 0xC0]
+            if not idx:
+                rec["outcome"] = "skipped"
+                return
+            at = idx[int(op.get("frac", 0.5) * len(idx)) % len(idx)]
+            data[at + 1] = data[at + 1] & 0x7F if at + 1 < len(data) else 0x41
         with simdisk.REAL_OPEN(self.abspath(rel), "wb") as fh:
             fh.write(bytes(data))
+        self.stamp(rel)
         entry = self.files.get(rel, {"fmt": op.get("fmt")})
         entry = dict(entry)
         entry["state"] = "corrupt"
@@ -728,6 +771,14 @@ class Segment:
             taint = not wf_ok or observed is None
             if state in ("torn", "corrupt", "partial"):
                 self.probe("damaged_document_accepted")
+                if fmt in ("uvl", "afm", "json", "glencoe"):
+                    try:
+                        data.decode("utf-8")
+                    except UnicodeDecodeError:
+                        self.fail("C12", "reader.invalid_utf8_accepted", site,
+                                  "the file is not valid UTF-8 (damaged inside a multi-byte "
+                                  "character) but it was read, i.e. not as UTF-8, and a model "
+                                  "was returned", tags)
                 if fentry.get("must_raise"):
                     self.fail(negprop, fmt + ".torn_inside_token_accepted", site,
                               "the writer was killed inside a quoted token, an open bracket or "
@@ -957,7 +1008,14 @@ class Segment:
         if rec["outcome"] == "ok":
             exact = rm.cj(self.canon(result, False))
             loose = rm.cj(self.canon(result, True))
-            rec["result"] = sha(loose)
+            # across replicas (other hash seed, other history) the result is compared exactly:
+            # sets and dict keys have no order, but the order of a returned *list* is part of the
+            # result and must not depend on PYTHONHASHSEED
+            rec["result"] = sha(exact)
+            self.check_held_results(site, tags)
+            self.held.append(("%s on %s (op #%d)" % (name, op["m"], op["i"]), result, exact,
+                              op["m"], entry["version"]))
+            del self.held[:-24]
             # fresh object on the same model, same session
             fresh = ocls()
             if name == "FMFeatureAncestors":
@@ -1000,6 +1058,26 @@ class Segment:
                               rec["exc"], "reused" if used else "fresh"), tags)
             except Exception:  # noqa: BLE001
                 pass
+
+    def check_held_results(self, site, tags):
+        """Results handed out by earlier executions and still held by the session must not be
+        changed by a later execution (same or another operation object)."""
+        for label, obj, was, handle, version in self.held:
+            owner = self.models.get(handle)
+            if owner is None or owner["version"] != version or owner.get("tainted"):
+                continue     # the model was edited since: results that alias its features follow
+            try:
+                now = rm.cj(self.canon(obj, False))
+            except Exception as err:  # noqa: BLE001
+                now = "raised " + type(err).__name__
+            if now != was:
+                self.fail("C19", "op.earlier_result_changed", site,
+                          "the result returned earlier by %s changed after this execution" %
+                          label, tags + ["hist.held_result"])
+                self.held = [h for h in self.held if h[1] is not obj]
+                return
+        if self.held:
+            self.probe("held_results_rechecked", len(self.held))
 
     def check_metrics(self, op, entry, result, site, tags):
         from . import metrics_ref
